@@ -15,7 +15,8 @@ out = ["# Seeded changes", "",
 "preference for sites two steps away (`clause:b`); round 6 (`C??-r6-<name>`) asked for changes presented as performance or",
 "resource optimisations (`optimise`: caches, pooled or reused buffers, narrowed critical sections, shared timers); round 7",
 "(`C??-r7-<name>`) for clean-ups of error handling and resource management (`cleanup`); round 8 (`C??-r8-<name>`) for",
-"changes to how work is ordered or shared between goroutines (`concurrency`). A change that an agent of a later round made again is not stored twice;",
+"changes to how work is ordered or shared between goroutines (`concurrency`); round 9 (`C??-r9-<name>`) for changes in",
+"arithmetic and boundaries (`arithmetic`: comparison direction, off-by-one, unit and clock-base mix-ups, integer width). A change that an agent of a later round made again is not stored twice;",
 "`also_produced_for` in the meta.json of the stored one records it.", "",
 "Files: `patch.diff` (the change), `demo/` (the agent's demonstration test, to be copied over a worktree that has the",
 "patch applied), `meta.json` (summary, what the change needs to manifest, how it was verified, which check reports it).", "",
